@@ -691,6 +691,20 @@ pub fn generate(family: &str, seed: u64, count: usize, emit: &mut dyn FnMut(Stri
                 emit(format!("rt {} {} {} {}", p, ro, fast_flag(), enc_value_text(&v)));
             }
         }
+        "specrd" => {
+            // texts the REAL printer writes for plain values, to be read by the independent reader of the documented
+            // grammar (LexprModel/Spec): default options -> Scheme reader, Emacs Lisp options -> Emacs Lisp reader
+            let mut vals: Vec<Value> = value_basis();
+            for _ in 0..count { vals.push(gen_value(&mut r, &VCFG_PLAIN, 3)); }
+            for v in vals {
+                for (tag, p, ro) in [("S", P_DEFAULT, R_DEFAULT), ("E", P_ELISP, R_ELISP)] {
+                    if !crate::oracle::plain_for(p, ro, &v) || crate::oracle::has_reserved_numeric_name(&v) { continue; }
+                    if let Ok(text) = lexpr::to_vec_custom(&v, print_opts(p)) {
+                        emit(format!("specrd {} {} ;; {}", tag, hex(&text), enc_value_text(&v)));
+                    }
+                }
+            }
+        }
         "rtall" => {
             let basis = value_basis();
             for p in all_popts() {
